@@ -22,7 +22,14 @@ fn ts_infix_from_path(path: &Path, file_spec: &FileSpec) -> String {
         .to_string_lossy()
         .find("rXXXXX")
         .unwrap();
-    String::from_utf8_lossy(&path.to_string_lossy().as_bytes()[idx..idx + 20]).to_string()
+    // a path that is too short carries no timestamp infix
+    String::from_utf8_lossy(
+        path.to_string_lossy()
+            .as_bytes()
+            .get(idx..idx + 20)
+            .unwrap_or_default(),
+    )
+    .to_string()
 }
 
 pub(crate) fn timestamp_from_ts_infix(
